@@ -310,10 +310,13 @@ class State:
                     reverse=reverse,
                 )
 
-                # Merge vectorized scan states into collected state
-                # scan_states is already vectorized by scan - just merge it
+                # Merge vectorized scan states into collected state, under the namespaces
+                # that enclose the scan (scan_states is already vectorized by scan)
+                target = _nested_dict_get(
+                    self.collected_state, tuple(self.namespace_stack)
+                )
                 for name, vectorized_values in scan_states.items():
-                    self.collected_state[name] = vectorized_values
+                    target[name] = vectorized_values
 
                 outvals = jtu.tree_leaves(
                     (flat_carry_out, scanned_out),
